@@ -975,6 +975,246 @@ def split_stock_runs(chk, plain):
     chk.measurements['split_stock_max_abs_diff_K'] = worst
 
 
+# ------------------------------------------------------------------------------- identity structure
+SHARE_PATTERNS = [
+    ('separate objects', None),
+    ('one wall Element in both', ('wall',)),
+    ('one roof and one mass Element in both', ('roof', 'mass')),
+    ('one envelope (wall, roof, mass) in both', ('wall', 'roof', 'mass')),
+    ('one Building in both', ('building',)),
+    ('everything but the labels in both', ('building', 'wall', 'roof', 'mass')),
+]
+
+
+def identity_cases(rng, quick):
+    """custom vectors as a caller writes them: (label, spec, extra DOE rows, zone)"""
+    import s2_util as S
+    cases = []
+    for label, roles in SHARE_PATTERNS:
+        for kind in ('new', 'doe'):
+            if kind == 'new':
+                spec = S.spec_shared(roles or (), types=('rowhouse', 'rowhouseretrofit'),
+                                     era=rng.choice(ERAS), src=((5, 2, 0), (5, 1, 0)))
+            else:                  # customs that REPLACE two DOE archetypes and share a construction
+                spec = S.spec_shared(roles or (), types=('largeoffice', 'hospital'), era=rng.choice(ERAS),
+                                     src=((3, 1, 0), (1, 1, 0)))
+            if roles is None:
+                spec[1].pop('share')
+            cases.append(('two %s customs, %s' % ('new-type' if kind == 'new' else 'DOE-type', label), spec,
+                          [('midriseapartment', 'pst80')] if rng.random() < 0.6 else [],
+                          rng.choice(ZONES18)))
+    # three customs around one wall; first + revised custom that share their envelope
+    spec = S.spec_new_types(3)
+    spec[1]['share'] = (0, 'wall')
+    spec[2]['share'] = (0, 'wall', 'mass')
+    cases.append(('three new-type customs around one wall Element', spec, [('smalloffice', 'new')], '4A'))
+    spec = S.spec_first_revised() + S.spec_shared(('wall', 'roof', 'mass'))
+    spec[1]['share'] = (0, 'wall', 'roof', 'mass')
+    spec[3]['share'] = (2, 'wall', 'roof', 'mass')
+    cases.append(('first + revised custom of one type and era sharing the envelope, two more sharing theirs',
+                  spec, [], '5C'))
+    return cases
+
+
+def identity_ties(chk, plain):
+    """C07 'the simulated archetypes correspond one-to-one to the rows': the entries of BEM must be SEPARATE
+    archetypes - `urbflux` advances wall, roof and mass of every entry once per time step, so an Element (or
+    Building) that two entries have in common is advanced twice per step and each of the two buildings sees the
+    other's surface state. Checked on the identity structure (`is`) of what generate() puts into BEM against the
+    objects the caller supplied and the objects the shipped library holds, on step counts of live runs, and on
+    twin simulations (one construction object used twice vs equal separate copies)."""
+    import s2_util as S
+    import uwgutil as U
+    rng = chk.rng
+    quick = chk.tier == 'quick'
+    work = chk.work()
+    nbad = ncase = 0
+    findings = []
+    branches = {}
+
+    def bad(what, case, observed, expected):
+        nonlocal nbad
+        nbad += 1
+        if nbad <= 3:
+            chk.violation('impl-violation', what, case=case, observed=observed, expected=expected)
+
+    def kwargs_model(bv, sv, bld, zone, nday=1):
+        return plain.UWG.from_param_args(
+            10.0, 0.5, 0.8, 0.1, 0.1, zone, month=7, day=1, nday=nday, dtsim=300, bld=bld,
+            epw_path=EPW, new_epw_dir=work, new_epw_name='ident.epw', ref_bem_vector=bv, ref_sch_vector=sv)
+
+    # ---- (1) the shipped library: every type with two / three of its eras in one stock
+    pristine, _ = plain.UWG.load_refDOE()
+    lib_stocks = []
+    for t in REF_BLDTYPE:
+        for eras in ([('pre80', 'new')] if quick else [('pre80', 'new'), ('pre80', 'pst80', 'new'), ('pst80', 'new')]):
+            lib_stocks.append(([(t, e) for e in eras], rng.choice(ZONES18)))
+    lib_stocks += [([('standaloneretail', 'new'), ('stripmall', 'pst80')], '8'),
+                   ([('supermarket', 'new'), ('warehouse', 'pre80')], '8'),
+                   ([('largeoffice', 'pst80'), ('midriseapartment', 'pst80'), ('hospital', 'new')], '1B')]
+    prev = None
+    for keys, zone in lib_stocks:
+        n = len(keys)
+        bld = [(t, e, 1.0 / n if i < n - 1 else 1.0 - (n - 1) * (1.0 / n)) for i, (t, e) in enumerate(keys)]
+        with quiet():
+            m = plain.UWG.from_param_file(PARAM, epw_path=EPW, new_epw_dir=work)
+        m.bld, m.zone, m.nday = bld, zone, 1
+        with quiet():
+            m.generate()
+        ncase += 1
+        case = {'bld': bld, 'zone': zone, 'customs': None}
+        got = S.identity_structure(m.BEM)
+        zi = REFZ.index(proxy(zone))
+        cells = [(REF_BLDTYPE.index(b.bldtype), ERAS.index(b.builtera), zi) for b in m.BEM]
+        lib = S.identity_structure([pristine[i][j][k] for i, j, k in cells])
+        extra = [g for g in got if g not in lib]
+        if extra:
+            bad('identity structure of BEM after generate() (shipped library)', case,
+                'simulated archetypes are not separate: %s' % '; '.join(extra[:4]),
+                'no stateful object in common between two entries of BEM (the shipped library itself holds '
+                'separate objects at these cells)')
+        elif got:
+            findings.append((case, got))
+            branches['library-aliased'] = branches.get('library-aliased', 0) + 1
+        else:
+            branches['library-separate'] = branches.get('library-separate', 0) + 1
+        if prev is not None:
+            cross = S.identity_structure(m.BEM, others=prev.BEM)
+            if cross:
+                bad('identity structure of BEM after generate() (two models)', case,
+                    'archetypes of two models are one object: %s' % '; '.join(cross[:3]),
+                    'every model owns its archetypes')
+        prev = m
+
+    # ---- (2) custom vectors handed over as objects (keyword route), with and without common sub-objects
+    sims = []
+    for label, spec, extra_rows, zone in identity_cases(rng, quick):
+        bv, sv = S.custom_vector(plain, spec)
+        bld = S.bld_for(spec, extra=extra_rows)
+        case = {'customs': [{k: v for k, v in sp.items()} for sp in spec], 'pattern': label, 'bld': bld,
+                'zone': zone}
+        given_structure = S.identity_structure(bv, names=['given[%d]' % i for i in range(len(bv))])
+        given_dicts = [b.to_dict() for b in bv]
+        try:
+            m = kwargs_model(bv, sv, bld, zone)
+            with quiet():
+                m.generate()
+        except Exception as e:  # noqa: BLE001
+            bad('generate() with a custom vector', case, '%s: %s' % (type(e).__name__, str(e)[:200]),
+                'the stock is realisable: every row names a custom or a DOE archetype')
+            continue
+        ncase += 1
+        branches['custom:' + label.split(',')[-1].strip()] = branches.get('custom:' + label.split(',')[-1].strip(), 0) + 1
+        got = S.identity_structure(m.BEM)
+        if got:
+            bad('identity structure of BEM after generate() (custom vector)', case,
+                'simulated archetypes are not separate, they share: %s' % '; '.join(got[:6]),
+                'every row of the stock is simulated as an archetype of its own (the caller\'s objects share: %s)'
+                % ('; '.join(given_structure[:6]) or 'nothing'))
+        cross = S.identity_structure(m.BEM, others=bv)
+        if cross:
+            bad('identity structure of BEM after generate() (caller\'s objects)', case,
+                'BEM holds the caller\'s own objects: %s' % '; '.join(cross[:4]),
+                'copies (simulating must not alter the custom BEMDefs the caller keeps)')
+        # every simulated custom carries exactly the values of the custom the caller gave (last one wins)
+        want = {}
+        for n, sp in enumerate(spec):
+            want[(sp['type'], sp['era'])] = n
+        for b in m.BEM:
+            n = want.get((b.bldtype, b.builtera))
+            if n is None:
+                continue
+            if b.zonetype != 'c%d' % n or b.to_dict() != given_dicts[n]:
+                bad('custom archetype carried into BEM', case,
+                    '%s %s is simulated with marker %r / values differing from custom %d'
+                    % (b.bldtype, b.builtera, b.zonetype, n),
+                    'the (last) custom given for this type and era, value for value')
+        if len(sims) < (3 if quick else 8) and ('wall' in label or 'Building' in label or 'envelope' in label):
+            sims.append((label, spec, bld, zone, m, bv, sv, given_structure, given_dicts))
+
+    # ---- (3) live runs: every wall / roof advanced once per step; shared description == separate description
+    nsim = 0
+    for label, spec, bld, zone, m, bv, sv, given_structure, given_dicts in sims:
+        case = {'customs': spec, 'pattern': label, 'bld': bld, 'zone': zone}
+        with S.Patch() as p:
+            sc = S.StepCounter(p)
+            with quiet():
+                m.simulate()
+        nsim += 1
+        for j, b in enumerate(m.BEM):
+            for role in ('wall', 'roof'):
+                c = sc.surf.get(id(getattr(b, role)), 0)
+                if c != sc.steps:
+                    bad('every simulated archetype is advanced once per time step', case,
+                        'the %s of BEM[%d] (%s %s) was advanced %d times in %d steps' % (
+                            role, j, b.bldtype, b.builtera, c, sc.steps),
+                        'one SurfFlux call per step')
+        # the caller's objects: same structure, same values as before generate + simulate
+        if S.identity_structure(bv, names=['given[%d]' % i for i in range(len(bv))]) != given_structure or \
+                [b.to_dict() for b in bv] != given_dicts:
+            bad('the caller\'s custom objects after generate + simulate', case, 'changed', 'unchanged')
+        # twin: the same customs written with separate, equal objects
+        bv2, sv2 = S.custom_vector(plain, spec)
+        bv2 = [copy.deepcopy(b) for b in bv2]            # one deepcopy per entry: no object in common any more
+        if S.identity_structure(bv2):
+            raise core.Infra('twin construction still shares objects')
+        m2 = kwargs_model(bv2, sv2, bld, zone)
+        with quiet():
+            m2.generate()
+            m2.simulate()
+        nsim += 1
+        r1, r2 = U.records(m), U.records(m2)
+        if r1 != r2:
+            d = max((abs(float(a[0]) - float(b[0])) for a, b in zip(r1, r2) if a and b), default=float('nan'))
+            bad('equivalent descriptions of one stock give the same urban weather', case,
+                'customs written around one shared object vs equal separate objects: hourly records differ '
+                '(canyon temperature by up to %.3e K)' % d,
+                'bit-identical hourly records (the values of every parameter are equal)')
+
+    # ---- (4) library stocks with aliased cells: advanced how often?  (finding, recorded - not a verdict)
+    alias_steps = None
+    if findings:
+        case, got = findings[0]
+        with quiet():
+            m = plain.UWG.from_param_file(PARAM, epw_path=EPW, new_epw_dir=work)
+        m.bld, m.zone, m.nday = case['bld'], case['zone'], 1
+        with S.Patch() as p:
+            sc = S.StepCounter(p)
+            with quiet():
+                m.generate()
+                m.simulate()
+        nsim += 1
+        alias_steps = {'stock': case['bld'], 'zone': case['zone'], 'steps': sc.steps,
+                       'wall_advanced': [sc.surf.get(id(b.wall), 0) for b in m.BEM]}
+    chk.direct('identity-structure(BEM after generate; live step counts; shared-vs-separate twins)', ncase + nsim,
+               ncase + nsim,
+               'unmodified package. Explored: (1) for each of the 16 DOE types a stock of two (thorough: also '
+               'three) of its eras, random zone of the 18, plus mixed stocks: no stateful object (BEMDef, '
+               'Building, Element, their lists) may be common to two entries of BEM unless the pristine pickle '
+               'holds the same object at both cells (that is recorded as a finding, see notes), none common to '
+               'the BEM of two models; (2) custom vectors given as objects through from_param_args: two new-type '
+               'and two DOE-type customs x {separate, one wall, roof+mass, whole envelope, one Building, '
+               'everything} in common, three customs around one wall, first+revised custom sharing an envelope: '
+               'entries of BEM pairwise separate, separate from the caller\'s objects, equal to the caller\'s '
+               'custom value for value (to_dict), last custom of a type+era wins; (3) 1-day simulations: every '
+               'wall and roof advanced exactly once per step, caller\'s objects unchanged, and the same customs '
+               'written around one shared object vs equal separate objects give bit-identical hourly records',
+               mismatches=nbad, branches=branches)
+    if findings:
+        chk.measurements['library_stocks_with_aliased_archetypes'] = [
+            {'stock': c['bld'], 'zone': c['zone'], 'shared': g[:6]} for c, g in findings[:6]]
+        chk.measurements['aliased_stock_step_count'] = alias_steps
+        chk.notes.append(
+            'FINDING (unchanged tree, recorded - not a verdict): in uwg/refdata/readDOE.pkl all 48 stripmall cells '
+            'hold ONE wall and ONE mass Element (the objects of standaloneretail/new/zone 8) and all 48 warehouse '
+            'cells ONE wall and ONE mass Element (those of supermarket/new/zone 8; warehouse pst80/new also the '
+            'roof of warehouse/pre80/zone 8): readDOE.py does not recognise the construction names "Steel-frame", '
+            '"Metal building wall", "Metal building roof" of BLD14/BLD16 and re-uses the objects of the previous '
+            'iteration. %d of %d library stocks explored here therefore simulate two rows with one wall state '
+            '(e.g. %s: %s); urbflux advances that wall once per row (%s)' % (
+                len(findings), len(lib_stocks), findings[0][0]['bld'], '; '.join(findings[0][1][:2]), alias_steps))
+
+
 def build_cases(chk, rl, focus):
     rng = chk.rng
     quick = chk.tier == 'quick'
@@ -1100,6 +1340,7 @@ def run(chk, focus='C07', module=MODULE, theorems=THEOREMS):
     chk.extra_cov['zones_exercised'] = zones
     if focus == 'C07':
         split_stock_runs(chk, ses.plain)
+        identity_ties(chk, ses.plain)
     report(chk, ses, focus)
     chk.assumptions.append(
         '_compute_BEM/_customize_reference_data are exercised through fracexec (exact rationals) '
